@@ -5,8 +5,9 @@ CONSTANTS
   MaxSigMut = 2
   LegacyAccepted = FALSE
   ResignKeepsCache = FALSE
-INVARIANTS TypeOK SenderIsSigner ExactFieldsAndChain MalleableRejected
-PROPERTIES PoolHitExact AnswerIsRecover
+  ServeUnchecked = FALSE
+INVARIANTS TypeOK SenderIsSigner ExactFieldsAndChain MalleableRejected PoolCheckedIsVerified
+PROPERTIES PoolHitExact AnswerIsRecover BlockAcceptsOnlyVerified BlockAcceptsVerified
 ACTION_CONSTRAINT Edge
 VIEW View
 CHECK_DEADLOCK FALSE
